@@ -70,6 +70,7 @@ def gen(rng, idx, tier):
         # how the identity handler got bound: with the server's start, later on the running server, or by rotating
         # handlers on the running server (bind the new one, then unbind the old, permissive one)
         "bind_how": rng.choice(["start", "start", "late", "rotate"]),
+        "bad_update": rng.choice([None, None, ["\\bad"], ["Intruder", "x" * 17], ["   "], ["Other9", "a\\b"]]),
         "sched": C.gen_sched(rng, fine_pct=15), "net": C.gen_net(rng),
     }
     return sc
@@ -87,11 +88,13 @@ def shrink(sc):
         yield d
 
 
-def ref_policy(sc):
-    """(accept?, set of legal (result, source, reason) rejections)."""
+def ref_policy(sc, in_force=None):
+    """(accept?, set of legal (result, source, reason) rejections).  `in_force`: the required-calling list the
+    AE's public getter reported when the server started (after an update the API refused, it is the old list)."""
     fails = set()
-    if sc["require_calling"]:
-        allowed = [s.strip() for s in sc["require_calling"]]
+    req = sc["require_calling"] if in_force is None else in_force
+    if req:
+        allowed = [s.strip() for s in req]
         if sc["calling"].strip() not in allowed:
             fails.add((1, 1, 3))
     if sc["require_called"]:
@@ -152,7 +155,15 @@ def execute(sc, ctx):
     except Exception as e:  # noqa: BLE001 - configuration refused by the API: not a case
         ctx.obs["config_refused"] = repr(e)
         return
-    ctx.obs["configured_calling"] = list(ae.require_calling_aet)
+    if sc.get("bad_update"):
+        # an update of the policy that the API refuses (invalid title in the list) must leave the policy as it was
+        try:
+            ae.require_calling_aet = list(sc["bad_update"])
+            ctx.obs["bad_update"] = "accepted"
+        except Exception as e:  # noqa: BLE001
+            ctx.obs["bad_update"] = "refused: %r" % (e,)
+        sim.count("fault.refused_policy_update")
+    ctx.obs["configured_calling"] = [x.decode() if isinstance(x, bytes) else str(x) for x in ae.require_calling_aet]
     ctx.obs["own_title"] = ae.ae_title
     srv = ctx.start_server(ae, handlers=hh)
     if how in ("late", "rotate"):
@@ -194,7 +205,7 @@ def check(sc, r):
         return out
     if r.obs.get("config_refused"):
         return out
-    accept, fails = ref_policy(sc)
+    accept, fails = ref_policy(sc, r.obs.get("configured_calling"))
     s2c, _ = C.conn_pdus(r, 0, "s2c")
     first = next((p for p in s2c if p["type"] in (2, 3, 7)), None)
     which = "+".join(sorted("%d%d%d" % f for f in fails)) or "none"
@@ -233,7 +244,7 @@ def nontrivial(sc, r):
 
 
 def probes(sc, r):
-    accept, fails = ref_policy(sc)
+    accept, fails = ref_policy(sc, r.obs.get("configured_calling"))
     d = {"policy_accept": accept, "policy_reject": not accept, "pipeline_" + sc["pipeline"]: True}
     for f in fails:
         d["fail_%d%d%d" % f] = True
@@ -245,5 +256,5 @@ def probes(sc, r):
 
 def sample(sc, r):
     s2c, _ = C.conn_pdus(r, 0, "s2c")
-    return {"scenario": {k: sc[k] for k in sc if k not in ("sched", "net")}, "expected": ref_policy(sc)[0],
+    return {"scenario": {k: sc[k] for k in sc if k not in ("sched", "net")}, "expected": ref_policy(sc, r.obs.get("configured_calling"))[0],
             "acceptor_wrote": [W.PDU_NAMES.get(p["type"]) for p in s2c], "handlers": r.obs.get("invoked")}
